@@ -219,7 +219,8 @@ Definition apply_update (w : world) (i : cid) (v : gval) (o : origin) (chk : boo
       let w1 := mkWorld (store w) (conns w) (set_char (chars w) i ch') (outbox w) (cblog w) in
       fold_left (fun w cb =>
         mkWorld (store w) (conns w) (chars w)
-                (outbox w ++ notify w i (cb_new cb) (match cb_origin cb with Remote k => Some k | Local => None end))
+                (outbox w ++ notify w i (match cvalue ch' with Some x => x | None => VNil end)   (* the event body carries c.Value: nil when not readable *)
+                                     (match cb_origin cb with Remote k => Some k | Local => None end))
                 (match cb_origin cb with Remote _ => cblog w ++ [(i, cb_new cb)] | Local => cblog w end)) cbs w1
     | _ => w
     end
